@@ -1,12 +1,27 @@
 (** C06 -- what the property prescribes: a lazy sequence is a chain of memoised thunks.
 
-    A cell is a thunk, a value (nil or a cons), or is being forced.  Forcing runs the thunk
-    (once: the value is kept), follows a returned lazy seq to ITS value, and keeps the result.
+    A cell is a thunk, holds what its thunk returned, holds a value (nil or a cons), or is
+    being forced.  Forcing a cell -- a consumer or a producer ASKS for its value -- runs the
+    thunk (once: what it returned is kept), follows a returned lazy seq to the first object
+    that is not a lazy seq, and keeps that as the cell's value.
     - An exception leaves the cell a thunk again (nothing is remembered of the failed attempt),
       so the exception reaches this consumer and every later one.
     - A producer that looks at a cell which is being forced (its own, or one further out in
       the chain being followed) sees it empty, and that look changes nothing (the documented
       behaviour for co-recursive definitions such as `primes`).
+    - The lazy seqs ON THE WAY of a follow-up (A's thunk returned B, B's thunk returned C, ...)
+      have their thunks run (once each, what they returned is kept).  Whether following through
+      B also ASKS B -- B is "being forced" meanwhile and keeps the value the follow-up arrives
+      at -- is something the property does not say: each producer runs once, every answer given
+      to a consumer stays, nothing further is computed either way.  It is the parameter
+      [ask_inner] of this file:
+        false (the reference; so does Clojure's LazySeq.seq, which takes `sval()` of the lazy
+              seqs on the way): B only keeps what its thunk returned and finds its own value
+              when somebody asks B;
+        true: following through B asks B.
+      The two differ only when the follow-up arrives at a cell that is being forced (it sees
+      "empty" there, an answer that depends on the moment of asking) or when a producer looks
+      at a cell on the way.  [Corr.spec_ok] accepts an implementation that agrees with either.
     This file does not mention Initialized / Computing / Computed / Realized, locks or the GIL. *)
 From Coq Require Import List NArith Bool Arith Lia.
 Import ListNotations.
@@ -45,11 +60,16 @@ Definition snote (s : sst) c b := mkS (sheap s) (siters s) (sevs s) (stick s) (s
 Inductive scall :=
 | SForce (c : cid)              (* the value of cell c: ONil or OCons *)
 | SFollow (c : cid) (o : obj)   (* c's producer returned o: find o's value, keep it in c *)
+| SChase (d : cid)              (* d is on the way of a follow-up and is not asked: what d's thunk returned, followed *)
 | SValue (o : obj)              (* (seq o) for any object *)
 | SGen (g : gen)
 | SScript (l : list action)
 | SPull (it : nat)
 | SNext (cur : obj).            (* one step of iterating over cur: OCons v cur' | ONil *)
+
+Section Ref.
+(** does following a returned lazy seq ASK the lazy seqs on the way?  (see the head of the file) *)
+Variable ask_inner : bool.
 
 Fixpoint sev (fuel : nat) (k : scall) (s : sst) : sst * res :=
   match fuel with
@@ -73,13 +93,32 @@ Fixpoint sev (fuel : nat) (k : scall) (s : sst) : sst * res :=
     | SFollow c o =>
         match o with
         | OLazy d =>
-            let (s1, r) := sev f (SForce d) (sset s c (SChasing o)) in
+            let (s1, r) := sev f (if ask_inner then SForce d else SChase d) (sset s c (SChasing o)) in
             match r with
             | Ok v => (sset s1 c (SVal v), Ok v)
             | Exn => (sset s1 c (SGot o), Exn)
             | e => (s1, e)
             end
         | _ => let v := seq_or_nil o in (sset s c (SVal v), Ok v)
+        end
+    | SChase d =>
+        let chase (o : obj) (s' : sst) : sst * res :=
+          match o with
+          | OLazy e => sev f (SChase e) s'
+          | _ => (s', Ok (seq_or_nil o))
+          end in
+        match sget s d with
+        | None => (s, Bad)
+        | Some (SVal o, _) => (s, Ok o)
+        | Some (SBusy _, _) | Some (SChasing _, _) => (s, Ok ONil)
+        | Some (SGot o, _) => chase o s
+        | Some (SThunk g, _) =>
+            let (s1, r) := sev f (SGen g) (sstart s d g) in
+            match r with
+            | Ok o => chase o (sset s1 d (SGot o))
+            | Exn => (sset s1 d (SThunk g), Exn)
+            | e => (s1, e)
+            end
         end
     | SValue o =>
         match o with
@@ -278,12 +317,16 @@ Definition s_do_op (o : op) (regs : list obj) (s : sst) : sst * list obj * obs :
       end
   end.
 
-Fixpoint s_do_ops (l : list op) (regs : list obj) (s : sst) (acc : list obs) : sst * list obs :=
+Fixpoint s_do_ops_with (l : list op) (regs : list obj) (s : sst) (acc : list obs) : sst * list obs :=
   match l with
   | [] => (s, rev acc)
-  | o :: t => let '(s1, regs1, b) := s_do_op o regs s in s_do_ops t regs1 s1 (b :: acc)
+  | o :: t => let '(s1, regs1, b) := s_do_op o regs s in s_do_ops_with t regs1 s1 (b :: acc)
   end.
 End Run.
+End Ref.
+
+(** the reference run: [ask_inner = false] *)
+Definition s_do_ops (fuel : nat) := s_do_ops_with false fuel.
 
 Definition s_init (scripts : list (list action)) (its : list iter) (nev : nat) : sst :=
   mkS (map (fun l => (SThunk (GScript l), 0%N)) scripts) its (repeat false nev) 0 0 [].
